@@ -167,15 +167,47 @@ package state
 //@ ghost func nonceAsOf(addr felt.Felt, n uint64) felt.Felt
 //@ ghost func classHashAsOf(addr felt.Felt, n uint64) felt.Felt
 //@ ghost func lastUpdatedAsOf(addr felt.Address, key felt.Felt, n uint64) uint64
+// The historical accessors: each asks the history kernel for ITS key family - storage (contract, slot),
+// nonce (contract), class hash (contract) - built from its own arguments, as of the block it was
+// asked about. What the kernel answers for a key family and a block is the meaning of the *AsOf
+// functions (a definitional postcondition: there is nothing to prove it from - the kernel itself is
+// under contract against the abstract log, above).
+//@ extern func github.com/NethermindEth/juno/db.ContractStorageHistoryKey
+//@   logged as StorageKey
+//@ extern func github.com/NethermindEth/juno/db.ContractNonceHistoryKey
+//@   logged as NonceKey
+//@ extern func github.com/NethermindEth/juno/db.ContractClassHashHistoryKey
+//@   logged as ClassHashKey
+//@ func (*StateReader).getHistoricalValue
+//@   trusted
+//@   logged as HistoryLookup
 //@ func (*StateReader).ContractStorageAt
-//@   trusted
-//@   ensures result1 == nil ==> result0 == storageAsOf(*addr, *key, blockNum)
+//@   props C03
+//@   arith int
+//@   nosafe
+//@   assigns calls_StorageKey, arg_StorageKey_addr, arg_StorageKey_loc, calls_HistoryLookup, arg_HistoryLookup_prefix, arg_HistoryLookup_blockNum
+//@   callsite ContractStorageHistoryKey@*: this_contract_and_slot: $0 == addr && $1 == key
+//@   callsite getHistoricalValue@*: the_storage_family_as_of_the_block: $0 == s && $2 == blockNum && calls_StorageKey == old(calls_StorageKey) + 1
+//@   ensures one_lookup: calls_HistoryLookup == old(calls_HistoryLookup) + 1
+//@   defines meaning: result1 == nil ==> result0 == storageAsOf(*addr, *key, blockNum)
 //@ func (*StateReader).ContractNonceAt
-//@   trusted
-//@   ensures result1 == nil ==> result0 == nonceAsOf(*addr, blockNum)
+//@   props C03
+//@   arith int
+//@   nosafe
+//@   assigns calls_NonceKey, arg_NonceKey_addr, calls_HistoryLookup, arg_HistoryLookup_prefix, arg_HistoryLookup_blockNum
+//@   callsite ContractNonceHistoryKey@*: this_contract: $0 == addr
+//@   callsite getHistoricalValue@*: the_nonce_family_as_of_the_block: $0 == s && $2 == blockNum && calls_NonceKey == old(calls_NonceKey) + 1
+//@   ensures one_lookup: calls_HistoryLookup == old(calls_HistoryLookup) + 1
+//@   defines meaning: result1 == nil ==> result0 == nonceAsOf(*addr, blockNum)
 //@ func (*StateReader).ContractClassHashAt
-//@   trusted
-//@   ensures result1 == nil ==> result0 == classHashAsOf(*addr, blockNum)
+//@   props C03
+//@   arith int
+//@   nosafe
+//@   assigns calls_ClassHashKey, arg_ClassHashKey_addr, calls_HistoryLookup, arg_HistoryLookup_prefix, arg_HistoryLookup_blockNum
+//@   callsite ContractClassHashHistoryKey@*: this_contract: $0 == addr
+//@   callsite getHistoricalValue@*: the_class_hash_family_as_of_the_block: $0 == s && $2 == blockNum && calls_ClassHashKey == old(calls_ClassHashKey) + 1
+//@   ensures one_lookup: calls_HistoryLookup == old(calls_HistoryLookup) + 1
+//@   defines meaning: result1 == nil ==> result0 == classHashAsOf(*addr, blockNum)
 // The head accessors (trusted): the head values, unrelated to the value as of an earlier block.
 //@ ghost func headStorage(addr felt.Felt, key felt.Felt) felt.Felt
 //@ ghost func headNonce(addr felt.Felt) felt.Felt
@@ -195,6 +227,7 @@ package state
 //@ func (*stateHistory).ContractStorage
 //@   props C03
 //@   arith int
+//@   assigns calls_StorageKey, arg_StorageKey_addr, arg_StorageKey_loc, calls_HistoryLookup, arg_HistoryLookup_prefix, arg_HistoryLookup_blockNum
 //@   requires s != nil && s.state != nil && s.state.db != nil && addr != nil && key != nil
 //@   ensures value: result1 == nil ==> result0 == storageAsOf(*addr, *key, s.blockNum)
 //@   ensures existed: result1 == nil ==> contractKnown(*addr) && deployedHeight(*addr) <= s.blockNum
@@ -202,6 +235,7 @@ package state
 //@ func (*stateHistory).ContractNonce
 //@   props C03
 //@   arith int
+//@   assigns calls_NonceKey, arg_NonceKey_addr, calls_HistoryLookup, arg_HistoryLookup_prefix, arg_HistoryLookup_blockNum
 //@   requires s != nil && s.state != nil && s.state.db != nil && addr != nil
 //@   ensures value: result1 == nil ==> result0 == nonceAsOf(*addr, s.blockNum)
 //@   ensures existed: result1 == nil ==> contractKnown(*addr) && deployedHeight(*addr) <= s.blockNum
@@ -209,6 +243,7 @@ package state
 //@ func (*stateHistory).ContractClassHash
 //@   props C03
 //@   arith int
+//@   assigns calls_ClassHashKey, arg_ClassHashKey_addr, calls_HistoryLookup, arg_HistoryLookup_prefix, arg_HistoryLookup_blockNum
 //@   requires s != nil && s.state != nil && s.state.db != nil && addr != nil
 //@   ensures value: result1 == nil ==> result0 == classHashAsOf(*addr, s.blockNum)
 //@   ensures existed: result1 == nil ==> contractKnown(*addr) && deployedHeight(*addr) <= s.blockNum
